@@ -184,8 +184,9 @@ Definition send (env : envelope) (msg : bytes) (s : cst) : rres * cst :=
   end.
 
 Definition quit (s : cst) : rres * cst := try_smtp (command QUIT s).
+(* a failed probe leaves a dialogue that may be out of step: the connection is aborted (F45) *)
 Definition test_connected (s : cst) : bool * cst :=
-  match command NOOP s with (Ok _, s1) => (true, s1) | (_, s1) => (false, s1) end.
+  match command NOOP s with (Ok _, s1) => (true, s1) | (_, s1) => (false, abort s1) end.
 
 (* auth(): up to ten challenges *)
 Fixpoint auth_loop (challenges : nat) (m : mech) (user pass : bytes) (r : response) (s : cst) : rres * cst :=
